@@ -126,6 +126,9 @@ pub enum UserKind {
         blocks: u8,
         block_size: u8,
         abort_at: Option<u8>,
+        /// with credentials: the transfer starts with an AUTHENTICATE_FILE step
+        #[serde(default)]
+        auth: bool,
     },
     /// read_directory of a directory with this many entries
     Directory(u8),
@@ -210,6 +213,8 @@ pub enum MOp {
     KillMaster,
     /// a channel message unrelated to any request (set_decode_level) - activity while tasks wait
     Poke,
+    /// the next fragment the scripted outstation transmits arrives in two pieces with a channel message in between
+    SplitNextReply(usize),
     /// outstation processing delay reported in DELAY_MEASURE and honoured by holding the reply
     ProcessingDelay {
         assoc: usize,
@@ -373,6 +378,11 @@ pub struct PeerShared {
     pub last_unsol: Option<(u16, Vec<u8>)>,
     pub last_delivery_ms: u64,
     pub last_deviation_ms: u64,
+    /// cancellation fault: the next fragment transmitted arrives in two pieces (cut after this many octets of its link
+    /// frame), 2 ms apart, and a channel message reaches the master in between
+    pub split_next: Option<usize>,
+    pub poke_at: Option<u64>,
+    pub poke_notify: Arc<tokio::sync::Notify>,
 }
 
 pub type Peer = Arc<Mutex<PeerShared>>;
@@ -422,9 +432,23 @@ impl PeerShared {
             let wire = self.link.encode_fragment(src, dest, bytes);
             let lat = to_client.lock().unwrap().latency_ms;
             // the stream preserves order: nothing overtakes an earlier (delayed) transmission
-            let due = (t + delay + lat).max(self.last_delivery_ms);
+            let mut due = (t + delay + lat).max(self.last_delivery_ms);
+            match self.split_next.take() {
+                Some(cut) if wire.len() >= 2 => {
+                    let cut = cut.clamp(1, wire.len() - 1);
+                    io::chan_push(&to_client, due, wire[..cut].to_vec());
+                    self.poke_at = Some(due + 1);
+                    self.poke_notify.notify_one();
+                    // the fragment counts as sent when its last octet leaves
+                    due += 2;
+                    io::chan_push(&to_client, due, wire[cut..].to_vec());
+                    if let Some(c) = kernel::current() {
+                        c.count("fault.read_future_cancelled", 1);
+                    }
+                }
+                _ => io::chan_push(&to_client, due, wire),
+            }
             self.last_delivery_ms = due;
-            io::chan_push(&to_client, due, wire);
             self.log(PeerEv::Tx {
                 t: due - lat,
                 order,
@@ -1528,6 +1552,7 @@ pub fn spawn_user(
                 blocks,
                 block_size,
                 abort_at,
+                auth,
             } => {
                 let reader = crate::verif::nodes::master::FReader {
                     rec: rec.clone(),
@@ -1539,7 +1564,15 @@ pub fn spawn_user(
                     max_block_size: 1024,
                     max_file_size: 10_000,
                 };
-                match h.read_file(name, config, Box::new(reader), None).await {
+                let credentials = if auth {
+                    Some(crate::master::FileCredentials {
+                        user_name: "user".to_string(),
+                        password: "secret".to_string(),
+                    })
+                } else {
+                    None
+                };
+                match h.read_file(name, config, Box::new(reader), credentials).await {
                     Ok(()) => (true, "Queued".to_string()),
                     Err(e) => (false, format!("{:?}", e)),
                 }
@@ -1668,9 +1701,44 @@ pub async fn drive(sim: &Sim, case: &SmastCase) -> MastRun {
         last_unsol: None,
         last_delivery_ms: 0,
         last_deviation_ms: 0,
+        split_next: None,
+        poke_at: None,
+        poke_notify: Arc::new(tokio::sync::Notify::new()),
     }));
     sim.spawn("scripted-outstation", peer_task(peer.clone(), net.clone()));
     let mut node = MasterNode::start(sim, &case.cfg, net.clone()).await;
+    {
+        // delivers the channel message that falls between the two pieces of a split fragment
+        let peer = peer.clone();
+        let mut channel = node.channel.clone();
+        let notify = peer.lock().unwrap().poke_notify.clone();
+        let level = if case.cfg.decode_all {
+            crate::decode::DecodeLevel::new(
+                crate::decode::AppDecodeLevel::ObjectValues,
+                crate::decode::TransportDecodeLevel::Payload,
+                crate::decode::LinkDecodeLevel::Payload,
+                crate::decode::PhysDecodeLevel::Data,
+            )
+        } else {
+            crate::decode::DecodeLevel::nothing()
+        };
+        sim.spawn("poker", async move {
+            loop {
+                notify.notified().await;
+                let at = peer.lock().unwrap().poke_at.take();
+                if let Some(at) = at {
+                    let now = kernel::current().map(|c| c.now_ms()).unwrap_or(0);
+                    tokio::time::sleep(Duration::from_millis(at.saturating_sub(now))).await;
+                    let _ = channel.set_decode_level(level).await;
+                    if let Some(c) = kernel::current() {
+                        if c.log_enabled() {
+                            c.log("  channel message between the two pieces of a split fragment".to_string());
+                        }
+                    }
+                }
+            }
+        });
+    }
     let mut polls: Vec<crate::master::PollHandle> = Vec::new();
     let mut op_marks = Vec::new();
     let mut next_user_id = 0u64;
@@ -1876,6 +1944,9 @@ pub async fn drive(sim: &Sim, case: &SmastCase) -> MastRun {
                 sim.kill(node.task);
                 sim.count("fault.master_task_dropped");
             }
+            MOp::SplitNextReply(cut) => {
+                peer.lock().unwrap().split_next = Some(*cut);
+            }
             MOp::Poke => {
                 let mut c = node.channel.clone();
                 let level = if case.cfg.decode_all {
@@ -2034,7 +2105,33 @@ where
     let run = result.lock().unwrap().take();
     match run {
         Some(run) => {
-            let (v, nt, fp, counters) = analyse(case, &run);
+            let (mut v, nt, fp, counters) = analyse(case, &run);
+            // common to every scenario on this engine: unless the script puts raw octets on the wire, every octet the master
+            // receives is part of a well-formed link frame - however it is cut into pieces and whatever wakes the master in
+            // between - so a framing error is the master's own doing
+            let raw_octets = case
+                .script
+                .iter()
+                .any(|op| matches!(op, MOp::Wire(_) | MOp::LinkPadding { .. }));
+            if v.is_none() && !raw_octets {
+                for (t, _, ev) in &run.master_log {
+                    let text = match ev {
+                        MEv::TaskFail { err, .. } if err.contains("BadFrame") => Some(err.clone()),
+                        MEv::UserDone { outcome, .. } if outcome.contains("BadFrame") => {
+                            Some(outcome.clone())
+                        }
+                        _ => None,
+                    };
+                    if let Some(text) = text {
+                        v = Some(Violation::new(
+                            &format!("{}/framing-error-on-well-formed-stream", prop),
+                            "",
+                            format!("at {} ms the master reported {} although the scripted outstation only sent well-formed link frames", t, text),
+                        ));
+                        break;
+                    }
+                }
+            }
             outcome.violation = v;
             outcome.nontrivial = nt;
             outcome.fingerprint = fp;
@@ -2096,4 +2193,20 @@ pub fn shrink_case(case: &SmastCase) -> Vec<SmastCase> {
         }
     }
     out
+}
+
+/// the cancellation fault for the master: now and then the next fragment from the scripted outstation arrives in two pieces
+/// (cut inside the link header, right after it, or anywhere) with a channel message reaching the master in between
+pub fn sprinkle_split_replies(rng: &mut crate::verif::rng::Rng, script: &mut Vec<MOp>) {
+    if !rng.chance(1, 3) {
+        return;
+    }
+    let mut out = Vec::with_capacity(script.len() + 4);
+    for op in script.drain(..) {
+        if matches!(op, MOp::User { .. } | MOp::Unsol { .. }) && rng.chance(1, 5) {
+            out.push(MOp::SplitNextReply(*rng.pick(&[1usize, 2, 3, 9, 10, 11, 12, 17, 26, 27, 28, 40])));
+        }
+        out.push(op);
+    }
+    *script = out;
 }
